@@ -2,19 +2,19 @@ package main
 
 func init() {
 	reg(&Spec{
-		ID: "C30", Pkgs: []string{"topics"},
+		ID: "C30", Pkgs: append([]string{"topics"}, toolPkgs...), Load: append([]string{"./topics"}, toolLoad...), Subst: toolSubst, ValidateN: 24,
 		Quick: func() []Inst {
-			return []Inst{inst("topics", "VH_C30_merge", 0, 1), inst("topics", "VH_C30_merge", 1, 1), inst("topics", "VH_C30_merge", 0, 2), inst("topics", "VH_C30_merge", 1, 2), inst("topics", "VH_C30_merge", 2, 1)}
+			return []Inst{inst("cmd/bisquitt-pub", "VH_TOOL_pub"), inst("cmd/bisquitt-sub", "VH_TOOL_sub"), inst("cmd/bisquitt", "VH_TOOL_gateway"), inst("topics", "VH_C30_merge", 0, 1), inst("topics", "VH_C30_merge", 1, 1), inst("topics", "VH_C30_merge", 0, 2), inst("topics", "VH_C30_merge", 1, 2), inst("topics", "VH_C30_merge", 2, 1)}
 		},
 		Thor: func() []Inst {
-			return []Inst{inst("topics", "VH_C30_merge", 0, 1), inst("topics", "VH_C30_merge", 1, 1), inst("topics", "VH_C30_merge", 0, 2), inst("topics", "VH_C30_merge", 1, 2), inst("topics", "VH_C30_merge", 2, 2), inst("topics", "VH_C30_merge", 0, 3), inst("topics", "VH_C30_merge", 2, 3)}
+			return []Inst{inst("cmd/bisquitt-pub", "VH_TOOL_pub"), inst("cmd/bisquitt-sub", "VH_TOOL_sub"), inst("cmd/bisquitt", "VH_TOOL_gateway"), inst("topics", "VH_C30_merge", 0, 1), inst("topics", "VH_C30_merge", 1, 1), inst("topics", "VH_C30_merge", 0, 2), inst("topics", "VH_C30_merge", 1, 2), inst("topics", "VH_C30_merge", 2, 2), inst("topics", "VH_C30_merge", 0, 3), inst("topics", "VH_C30_merge", 2, 3)}
 		},
-		Asserts: []string{"C30.options_parse", "C30.merge_entry_present", "C30.merge_entry_value"},
-		Reach:   []string{"C30.entry_found"},
+		Asserts: []string{"C30.options_parse", "C30.merge_entry_present", "C30.merge_entry_value", "C30.tool_reads_topics_file", "C30.tool_option_overrides_file", "C30.tool_starts_when_allowed"},
+		Reach:   []string{"C30.entry_found", "C30.tool_file_given", "C30.tool_option_given"},
 		Bounds: map[string]string{
 			"semantics": "file map of 0..2 entries (client 'a' or '*', ID one digit, name 1 symbolic byte) + 1..2 (thorough 3) options '[cid;]name;id' with symbolic client ID / name / digit, parsed by the real ParsePredefinedTopicOptions and merged by the real Merge; every (client, ID) lookup against the reference 'later overrides earlier, no client ID = *'",
 		},
-		Outside: []string{"YAML decoding; flag and environment parsing by urfave/cli", "the wiring of the three tools' handleAction closures (see DESIGN.md: decided separately)"},
+		Outside: []string{"YAML decoding; flag and environment parsing by urfave/cli (exercised only by the sampled runs of the real binaries)", "more than one --predefined-topic option in the tool runs (the merge semantics are covered by VH_C30_merge)"},
 	})
 }
 
@@ -251,5 +251,62 @@ func init() {
 			"polls":   "read-deadline expiries of the fake connections are delivered only after timer events (an expiry that finds the context alive is a no-op in util.ConnWithContext)",
 		},
 		Outside: []string{"longer histories, broker traffic towards the vanished client, K outside the listed values"},
+	})
+}
+
+var toolSubst = map[string]string{
+	"(*github.com/urfave/cli/v2.Context).Bool":                                   "github.com/energomonitor/bisquitt.VCtxBool",
+	"(*github.com/urfave/cli/v2.Context).String":                                 "github.com/energomonitor/bisquitt.VCtxString",
+	"(*github.com/urfave/cli/v2.Context).Path":                                   "github.com/energomonitor/bisquitt.VCtxPath",
+	"(*github.com/urfave/cli/v2.Context).StringSlice":                            "github.com/energomonitor/bisquitt.VCtxStringSlice",
+	"(*github.com/urfave/cli/v2.Context).Uint":                                   "github.com/energomonitor/bisquitt.VCtxUint",
+	"(*github.com/urfave/cli/v2.Context).Int":                                    "github.com/energomonitor/bisquitt.VCtxInt",
+	"(*github.com/urfave/cli/v2.Context).Duration":                               "github.com/energomonitor/bisquitt.VCtxDuration",
+	"(*github.com/urfave/cli/v2.Context).IsSet":                                  "github.com/energomonitor/bisquitt.VCtxIsSet",
+	"(*github.com/energomonitor/bisquitt/client.Client).Dial":                    "github.com/energomonitor/bisquitt.VClientDial",
+	"(*github.com/energomonitor/bisquitt/gateway.Gateway).ListenAndServe":        "github.com/energomonitor/bisquitt.VGatewayListen",
+	"github.com/energomonitor/bisquitt/util.NewProductionLogger":                 "github.com/energomonitor/bisquitt.VNewLogger",
+	"github.com/energomonitor/bisquitt/util.NewDebugLogger":                      "github.com/energomonitor/bisquitt.VNewLogger",
+	"os/signal.Notify":                                                           "github.com/energomonitor/bisquitt.VSignalNotify",
+	"net.ResolveTCPAddr":                                                         "github.com/energomonitor/bisquitt.VResolveTCPAddr",
+	"github.com/energomonitor/bisquitt/topics.ReadPredefinedTopicsFile":          "github.com/energomonitor/bisquitt.VReadPredefinedTopicsFile",
+}
+
+var toolPkgs = []string{"client", "gateway", "util", "root", "cmd/bisquitt", "cmd/bisquitt-pub", "cmd/bisquitt-sub"}
+var toolLoad = []string{"./client", "./cmd/bisquitt", "./cmd/bisquitt-pub", "./cmd/bisquitt-sub"}
+
+func toolInsts() []Inst {
+	return []Inst{inst("cmd/bisquitt-pub", "VH_TOOL_pub"), inst("cmd/bisquitt-sub", "VH_TOOL_sub"), inst("cmd/bisquitt", "VH_TOOL_gateway")}
+}
+
+func init() {
+	reg(&Spec{
+		ID: "C31", Pkgs: toolPkgs, Load: toolLoad, Subst: toolSubst, LoopBound: 400, ValidateN: 16,
+		Quick: func() []Inst {
+			out := toolInsts()
+			for _, a := range [][3]int64{{0, 0, 0}, {0, 1, 0}, {1, 0, 0}, {1, 1, 1}, {2, 1, 2}, {1, 0, 2}} {
+				out = append(out, inst("client", "VH_C31_client", a[0], a[1], a[2]))
+			}
+			return out
+		},
+		Thor: func() []Inst {
+			out := toolInsts()
+			for u := int64(0); u <= 2; u++ {
+				for p := int64(0); p <= 2; p++ {
+					for s := int64(0); s <= 2; s++ {
+						out = append(out, inst("client", "VH_C31_client", u, p, s))
+					}
+				}
+			}
+			return out
+		},
+		Asserts: []string{"C31.tool_refuses_plaintext_credentials", "C31.tool_dtls_as_requested", "C31.tool_user_as_given", "C31.tool_auth_as_requested", "C31.tool_refusal_is_an_error", "C31.tool_starts_when_allowed",
+			"C31.auth_right_after_every_connect", "C31.no_auth_without_user", "C31.auth_only_after_connect", "C31.connects_counted"},
+		Reach: []string{"C31.tool_started", "C31.tool_refused", "C31.history_done", "C31.with_user"},
+		Bounds: map[string]string{
+			"tools":  "the real handleAction closures of bisquitt, bisquitt-pub and bisquitt-sub on a symbolic flag table: --dtls, --self-signed, --insecure, --auth / --user (absent, empty, 'u'), --password, --predefined-topics-file, --predefined-topic each present or absent (every combination); cli.Context accessors, loggers, signal.Notify, ResolveTCPAddr, the topics-file reader and the first network step (Client.Dial / Gateway.ListenAndServe) are substituted by stubs (harness/root/clistubs.go); sampled combinations are run against the real binaries, half of them with environment variables instead of flags, and the started/refused outcome compared",
+			"client": "real client in virtual time: user of 0..2 and password of 0..2 symbolic bytes, 0..2 unanswered connect attempts (retransmitted CONNECTs), then register, publish, ping, a sleep cycle, a second Connect and Disconnect: every datagram sent is inspected",
+		},
+		Outside: []string{"certificate files (--cert/--key: the DTLS branch is taken with --self-signed)", "the tools' behaviour after the first network step", "flag parsing by urfave/cli itself (covered only by the sampled runs of the real binaries)"},
 	})
 }
